@@ -300,7 +300,7 @@ def _victim(kp, pre, a1, a2, same):
 
 def w_victim(kp: int, pre: int, a1: int, a2: int, same: bool) -> str:
     """
-    pre: PARTITION is None or (kp == PARTITION[0] and pre == PARTITION[1])
+    pre: PARTITION is None or (kp == PARTITION[0] and pre == PARTITION[1] and same == PARTITION[2] and 6 * PARTITION[3] <= a1 < 6 * PARTITION[3] + 6)
     pre: 0 <= kp < 5 and 0 <= pre < 4 and 0 <= a1 < 24 and 0 <= a2 < 72
     post: _ == ''
     """
@@ -425,11 +425,11 @@ def obligations(tier):
            bounds='2 concurrent trash-put; P0 runs to its a1-th shared instant (next system call touches the trash directory), P1 to its b1-th, '
                   'then both complete; every pair of shared instants x 5 kind pairs x 2 (quick) / 4 (thorough) trash-dir pre-states'),
     ]
-    vparts = [(0, 0), (0, 2)] if tier == 'quick' else [(k, p) for k in (0, 1, 2) for p in range(4)]
+    vparts = [(k, p, sm, r) for (k, p) in ([(0, 0), (0, 2)] if tier == 'quick' else [(k, p) for k in (0, 1, 2) for p in range(4)]) for sm in (False, True) for r in range(4)]
     obs.append(CH('W_victim_preempted_twice_by_complete_runs', MOD, 'w_victim', timeout=2400, partitions=vparts, engine='W', regime='selector',
                   encodes=K.PUT_FUNCS + ['vf.sched replay-stepping'], stubs=K.STUBS,
                   bounds='3 concurrent trash-put: P0 runs to its a1-th shared instant, P1 completes, P0 makes a2 < 72 further system calls, P2 completes, P0 finishes; '
-                         'P1 trashes P0\'s own path (one of them must fail) or another one; %d kind/pre-state partitions' % len(vparts)))
+                         'P1 trashes P0\'s own path (one of them must fail) or another one; %d kind/pre-state combinations' % (len(vparts) // 8)))
     if tier == 'thorough':
         obs.append(CH('W_two_processes_2_preemptions', MOD, 'w_conc2', timeout=7000, partitions=parts_q, twin=False,
            engine='W', regime='selector', encodes=K.PUT_FUNCS + ['vf.sched replay-stepping'], stubs=K.STUBS,
